@@ -305,7 +305,7 @@ void mmd_export_link_html(DString * out, const char * source, token * text, link
 		print_const(" ");
 		print(a->key);
 		print_const("=\"");
-		print(a->value);
+		mmd_print_string_html(out, a->value, false, false);
 		print_const("\"");
 		a = a->next;
 	}
@@ -364,7 +364,11 @@ void mmd_export_image_html(DString * out, const char * source, token * text, lin
 
 	if (text) {
 		print_const(" alt=\"");
-		print_token_tree_raw(out, source, text->child);
+		// The alt text is raw source -- escape it for use inside an attribute
+		DString * alt = d_string_new("");
+		print_token_tree_raw(alt, source, text->child);
+		mmd_print_string_html(out, alt->str, false, false);
+		d_string_free(alt, true);
 		print_const("\"");
 	}
 
@@ -395,7 +399,7 @@ void mmd_export_image_html(DString * out, const char * source, token * text, lin
 				print_const(" ");
 				print(a->key);
 				print_const("=\"");
-				print(a->value);
+				mmd_print_string_html(out, a->value, false, false);
 				print_const("\"");
 				free(width);
 				width = NULL;
@@ -416,7 +420,7 @@ void mmd_export_image_html(DString * out, const char * source, token * text, lin
 				print_const(" ");
 				print(a->key);
 				print_const("=\"");
-				print(a->value);
+				mmd_print_string_html(out, a->value, false, false);
 				print_const("\"");
 				free(height);
 				height = NULL;
@@ -428,7 +432,7 @@ void mmd_export_image_html(DString * out, const char * source, token * text, lin
 			print_const(" ");
 			print(a->key);
 			print_const("=\"");
-			print(a->value);
+			mmd_print_string_html(out, a->value, false, false);
 			print_const("\"");
 		}
 
@@ -439,11 +443,15 @@ void mmd_export_image_html(DString * out, const char * source, token * text, lin
 		print_const(" style=\"");
 
 		if (height) {
-			printf("height:%s;", height);
+			print_const("height:");
+			mmd_print_string_html(out, height, false, false);
+			print_const(";");
 		}
 
 		if (width) {
-			printf("width:%s;", width);
+			print_const("width:");
+			mmd_print_string_html(out, width, false, false);
+			print_const(";");
 		}
 
 		print_const("\"");
